@@ -69,6 +69,26 @@ CHECKS.update({
         design='C20'),
 })
 
+CHECKS.update({
+    'C13': dict(
+        text='The real mjcf.fuse_bodies (with _offset, _transform_do, rotate_np, quat_mul_np) is executed by the forking executor FX on MJCF text whose '
+             'pos / quat / fromto values are symbolic (reserved float tokens carried through the %f / np.fromstring round trips); for every feasible path the '
+             'world pose of every named geom, site and jointed body (end points for fromto geoms) in the fused document is proved equal to the original by '
+             'polynomial identities over all positions and unit quaternions.',
+        note='Engine fx. Oracle: MJCF frame composition, validated against real mujoco on concrete instances every run. Bounds: nesting depth <=2 (quick) / 3 '
+             '(thorough) under the world and under a jointed body, 4 attribute modes per level, 4 child kinds per level; Tier A quaternions for one level, '
+             'Tier B (exact rational instances) deeper. The 6-decimal %f rounding is abstracted. Masses/inertias only through the concrete MuJoCo replay.',
+        technique='path-forking symbolic execution of the Python loader code over z3 terms; polynomial identities (QF_NRA)', design='C13'),
+    'C14': dict(
+        text='The real mjcf.validate_model is executed by FX on a stand-in MjModel with enumerated discrete structure and SYMBOLIC continuous fields; for every '
+             'feasible accepting path the solver proves that no unsupported feature (declarative predicate of the property over the same fields) is present; '
+             'each native pipeline.init is shown to call the validator. The load-consistency sentence is NOT solver-decided: it is executed concretely on '
+             'generator models (sizes, link types, parent order, actuator ids, init pose vs the mujoco.MjModel) and reported separately.',
+        note='Engine fx. Bounds: <=3 joints (all types/stack shapes listed), <=2 actuators, <=3 geoms. Partial claim: second sentence only sampled concretely.',
+        technique='path-forking symbolic execution of the Python validator over z3 terms; per-path QF_LRA implication against a declarative predicate',
+        design='C14'),
+})
+
 NOT_APPLICABLE = {
     'C16': 'whole-program finiteness of 11 environments over 200-1000-step histories with contact switching and float overflow: '
            'outside what a bounded real-arithmetic encoding can decide (DESIGN.md section 3)',
@@ -86,7 +106,7 @@ def main():
         'thorough_cmd': './check %s --tier thorough' % pid,
         'evidence_file': 'evidence/%s.json' % pid,
         'replay_cmd_template': './check %s --tier quick' % pid,
-        'engine': 'sx',
+        'engine': 'fx' if pid in ('C13', 'C14') else 'sx',
         'level_claimed': {'category': 'model_checking', 'text': c['text'], 'design_ref': 'DESIGN.md section 2, ' + c['design']},
         'level_note': COMMON_NOTE + c['note'],
         'technique': c['technique'],
@@ -104,7 +124,7 @@ def main():
       'engines': [
           {'name': 'sx', 'path': 'sx/', 'serves_properties': sorted(CHECKS), 'kind_free_text':
            'symbolic executor for jaxprs of the real brax functions over z3 terms + SMT solver pool (z3, cvc5 cross-check)'},
-          {'name': 'fx', 'path': 'fx/', 'serves_properties': [], 'kind_free_text': 'forking symbolic executor for plain Python/numpy code (mjcf loader)'},
+          {'name': 'fx', 'path': 'fx/', 'serves_properties': ['C13', 'C14', 'C17'], 'kind_free_text': 'forking symbolic executor for plain Python/numpy code (mjcf loader)'},
       ],
       'checks': checks,
       'not_applicable': sorted(na, key=lambda x: x['property_id']),
